@@ -134,9 +134,9 @@ def plainWire (o : OwnParams) : List (String × Int) :=
 /-- the server's own max_idle_timeout in the driver (ms) -/
 def serverIdleMs : Int := 600000
 
-def fmtEnf (c : Config) (cidSet : Int) : String :=
-  let e := enforced c cidSet
-  s!"cw={e.connData} cwmax={c.maxConnectionReceiveWindow} swbl={e.streamBidiLocal} swbr={e.streamBidiRemote} swu={e.streamUni} swmax={c.maxStreamReceiveWindow} mib={e.streamsBidi} miu={e.streamsUni} cid={e.cids} dg={b2i c.enableDatagrams} idle={min c.maxIdleTimeout serverIdleMs}"
+def fmtEnf (c : Config) (adv : Option OwnParams) (cidSet : Int) : String :=
+  let e := enforced c adv cidSet
+  s!"cw={e.connData} cwmax={c.maxConnectionReceiveWindow} swbl={e.streamBidiLocal} swbr={e.streamBidiRemote} swu={e.streamUni} swmax={streamWindowCap c adv .bidiLocal} swmaxr={streamWindowCap c adv .bidiRemote} swmaxu={streamWindowCap c adv .uni} mib={e.streamsBidi} miu={e.streamsUni} cid={e.cids} dg={b2i c.enableDatagrams} idle={min c.maxIdleTimeout serverIdleMs}"
 
 /-! ## exercises: what the conformant in-tree server does with the advertised values, and whether the client's checks fire -/
 
@@ -191,6 +191,7 @@ def listMax (l : List Int) : Int := l.foldl max 0
 
 inductive Ex
   | sdata (k : StreamKind) | cdata | streams (bidi : Bool) | cids | datagram | idle
+  | refill (k : StreamKind) | idleack
   deriving Repr, DecidableEq
 
 def parseEx : List String → Option Ex
@@ -203,6 +204,10 @@ def parseEx : List String → Option Ex
   | ["cids"] => some .cids
   | ["datagram"] => some .datagram
   | ["idle"] => some .idle
+  | ["refill", "bl"] => some (.refill .bidiLocal)
+  | ["refill", "br"] => some (.refill .bidiRemote)
+  | ["refill", "uni"] => some (.refill .uni)
+  | ["idleack"] => some .idleack
   | _ => none
 
 def Adv.stream (a : Adv) : StreamKind → Int
@@ -218,6 +223,14 @@ structure ExPlan where
 
 def idleSettleMs : Int := 2000
 def idleMarginMs : Int := 500
+def refillExtraMax : Int := 65536
+/-- `idleack`: the client speaks every `mit / idleAckDiv` ms, `idleAckRounds` times (longer than the timeout) -/
+def idleAckDiv : Int := 5
+def idleAckRounds : Int := 8
+
+/-- base_flow_controller.go hasWindowUpdate: with a local window of `w` bytes, a peer that was told `adv` and has
+    used it up gets its MAX_STREAM_DATA only if `w - adv ≤ ⌊0.75·w⌋` — otherwise it starves -/
+def starves (w adv : Int) : Bool := decide (w - adv > (3 * w) / 4)
 
 def planOf (a : Adv) : Ex → ExPlan
   | .sdata k =>
@@ -243,6 +256,21 @@ def planOf (a : Adv) : Ex → ExPlan
     -- DatagramFrame.MaxDataLen: type byte + length byte leave no room for payload below 3
     if a.mdfs ≤ 2 then { pre := some "nodgram" } else
     { events := [.datagram (min a.mdfs receivable)], okText := "ok" }
+  | .refill k =>
+    if (k == .bidiRemote && a.imsb < 1) || (k == .uni && a.imsu < 1) then { pre := some "nostream" } else
+    let w := a.stream k
+    if w < 1 then { pre := some "nowindow" } else
+    let n := w + min w refillExtraMax
+    if n > a.imd then { pre := some "connbound" } else
+    let opens : List PeerEvent := match k with
+      | .bidiLocal => [] | .bidiRemote => [.openStream true 1] | .uni => [.openStream false 1]
+    -- (the first `w` bytes are within the advertised limit; the rest waits for the MAX_STREAM_DATA the client owes)
+    { events := opens ++ [.streamData k w, .connData w], okText := s!"ok n={n}" }
+  | .idleack =>
+    if a.mit = 0 then { pre := some "noidle" } else
+    if a.mit ≤ idleSettleMs + idleMarginMs || a.mit ≥ serverIdleMs then { pre := some "outofrange" } else
+    -- the client sends one byte every mit/5 ms; the server only acknowledges; every gap is far below the timeout
+    { events := [.silence (a.mit / idleAckDiv + idleMarginMs) serverIdleMs 0], okText := "ok" }
   | .idle =>
     if a.mit = 0 then { pre := some "noidle" } else
     if a.imsu < 1 || a.uni < 1 || a.imd < 1 then { pre := some "nochannel" } else
@@ -270,7 +298,10 @@ def predict (a : Adv) (enf : Limits) (ex : Ex) : Option String :=
     -- below the advertised one is not predicted
     if ex == .idle && enf.idle < a.mit && a.mit < enf.idle + 2000 then none else
     match p.events.filter (·.fires enf) with
-    | [] => some p.okText
+    | [] =>
+      match ex with
+      | .refill k => if starves (enf.stream k) (a.stream k) then some s!"stall n={a.stream k}" else some p.okText
+      | _ => some p.okText
     | ev :: rest =>
       -- `cdata`: streams are filled concurrently; when both a stream-count and a flow-control check would
       -- fire, which one the client hits first depends on packetisation: not predicted
